@@ -158,9 +158,13 @@ func runCraft(c *choice.Src, o engine.Opt, out *engine.Out) {
 	// valid private share exists), everybody else gets a correct share, the victim gets none and
 	// the dealer never answers its complaint. Only AGREEMENT is demanded: the honest receivers
 	// leave End() with the same verdict.
-	byzRoot := craftFamilies[fam] == "byz-root" && proto == QUAL && n >= 3
+	byzRoot := craftFamilies[fam] == "byz-root" && n >= 3
 	victim := -1
+	// what the victim is sent instead of a share: nothing, the zero scalar (the "true" image),
+	// a tag without payload, a short payload, the group order r
+	victimShare := 0
 	if byzRoot {
+		victimShare = c.Choose(5, "root.victimshare")
 		victim = c.Choose(n-1, "root.victim")
 		if victim >= d {
 			victim++
@@ -296,7 +300,7 @@ func runCraft(c *choice.Src, o engine.Opt, out *engine.Out) {
 	var todo []dl
 	for _, r := range rs {
 		todo = append(todo, dl{r, false})
-		if r.idx != victim {
+		if r.idx != victim || victimShare != 0 {
 			todo = append(todo, dl{r, true})
 		}
 	}
@@ -307,6 +311,17 @@ func runCraft(c *choice.Src, o engine.Opt, out *engine.Out) {
 		fp = append(fp, fmt.Sprintf("%d:%v", e.r.idx, e.share))
 		if e.share {
 			msg := append([]byte{tagShare}, wantSk[e.r.idx]...)
+			if e.r.idx == victim {
+				switch victimShare {
+				case 2:
+					msg = []byte{tagShare}
+				case 3:
+					msg = msg[:32]
+				case 4:
+					msg = append([]byte{tagShare}, scalar32(curve.R)...)
+				}
+				out.Faults["crafted_root_dealing.malformed_share_to_victim"]++
+			}
 			ev("deliver share to %d", e.r.idx)
 			if !call(e.r, "HandlePrivateMsg(share)", func() error { return e.r.st.HandlePrivateMsg(d, msg) }) {
 				return
@@ -366,6 +381,23 @@ func runCraft(c *choice.Src, o engine.Opt, out *engine.Out) {
 			}
 			ev("receiver %d: sends=%d callbacks=%v End -> %s", r.idx, len(r.proc.sends), r.proc.cbs, v)
 			verdicts = append(verdicts, fmt.Sprintf("%d:%s", r.idx, v))
+			if proto == FVSS {
+				// plain Feldman VSS has no complaints: the victim, which holds no share matching the
+				// vector, gets a DKG failure from End and never keys; the others hold valid shares
+				if r.idx == victim && endErr == nil {
+					viol("C08", "fvss.reject", "craft.byz-root.fvss-victim-got-keys", "plain Feldman VSS: Byzantine dealer %d committed to a polynomial with a root at participant %d and sent it no valid share (kind %d), yet End() of that participant returned keys", d, victim, victimShare)
+					return
+				}
+				if r.idx == victim && !crypto.IsDKGFailureError(endErr) {
+					viol("C08", "fvss.reject", "fvss.errorclass", "plain Feldman VSS: End() of participant %d returned %v", r.idx, endErr)
+					return
+				}
+				if r.idx != victim && endErr != nil {
+					viol("C08", "fvss.reject", "craft.byz-root.fvss-valid-share-refused", "plain Feldman VSS: participant %d holds a share matching the valid vector of dealer %d, End() returned %v", r.idx, d, endErr)
+					return
+				}
+				continue
+			}
 			if (endErr == nil) != (verdicts[0][len(fmt.Sprint(rs[0].idx))+1:] == "keys") {
 				viol("C07", "agree.outcome", "craft.byz-root.disagree", "Byzantine dealer %d committed to a polynomial with a root at participant %d, gave it no share and never answered: honest receivers disagree on the outcome: %v", d, victim, verdicts)
 				return
